@@ -42,3 +42,23 @@ Theorem C02_step_measure_mass : forall K (O : Ops K), Laws O -> forall sh key ax
   total_mass O (step O sh (MMeasure key ax inv []) b) = mass O b.
 Proof. exact @step_measure_mass. Qed.
 Print Assumptions C02_step_measure_mass.
+
+(* ---- measuring one factor of a product state (Sim/KronStateProofs.v) ----
+   projecting axes inside the first factor projects that factor only, and squared norms multiply: the outcome
+   probabilities of a measurement inside one factor do not depend on the other factors (what the product-state
+   simulator relies on when it measures and samples factor by factor) *)
+From VF Require Import Sim.KronState Sim.KronStateProofs.
+Theorem C02_tproject_tprod_first : forall K (O : Ops K), Laws O -> forall ax v n1 (p q : tensor (K:=K)),
+  (forall a, In a ax -> a < n1) ->
+  forall i, tproject O ax v (tprod O n1 p q) i = tprod O n1 (tproject O ax v p) q i.
+Proof. exact @tproject_tprod_first. Qed.
+Print Assumptions C02_tproject_tprod_first.
+Theorem C02_tnorm2_tprod : forall K (O : Ops K), Laws O -> forall sh1 sh2 (p q : tensor (K:=K)),
+  tnorm2 O (sh1 ++ sh2) (tprod O (length sh1) p q) = kmul O (tnorm2 O sh1 p) (tnorm2 O sh2 q).
+Proof. exact @tnorm2_tprod. Qed.
+Print Assumptions C02_tnorm2_tprod.
+(* the function-tensor projection is the list projection of Sim/Measure.v *)
+Theorem C02_project_tab : forall K (O : Ops K) sh ax v (psi : tensor (K:=K)),
+  project O sh ax v (tab sh psi) = tab sh (tproject O ax v psi).
+Proof. exact @project_tab. Qed.
+Print Assumptions C02_project_tab.
